@@ -1048,6 +1048,159 @@ def _established_everywhere_after_entry(rb, rfa, lit):
     return False
 
 
+# -------------------------------------------------------------------------------------------------
+# C03.T state beliefs: debug_assert!s in code reachable from handle_frame that speak about the receiver's
+# own state (which is filled from frames).  A belief is discharged (a) by a runtime test that dominates it in
+# the dev-profile body, or (b) by a reviewed entry: the invariant argument in one line, the set of functions
+# that may write the fields it speaks about (frozen: a new writer re-opens the argument) and, where the
+# argument has a structural core, a linked check.
+
+PR = r"half_connection::packet_receiver::PacketReceiver::"
+RB = r"half_connection::reorder_buffer::ReorderBuffer::"
+
+
+def _lk_window_span(cx):
+    """end_id - base_id <= window: end_id moves only to seq+1 of a packet inside the window (runtime test in
+    handle_datagram) or with the base; the base moves only through advance_window, called with an id between base
+    and end (receive) or under sender_delta <= window (resynchronize)"""
+    R = cx.R
+    hd = R.body("PacketReceiver::handle_datagram")
+    for loc, node, ps in hd.field_writes(r"arg1\.end_id"):
+        good, _ = dnf_holds(cx.fa(hd).at(loc), [[r"lt\(packet_id::sub\(arg2\.sequence_id,arg1\.base_id\),arg1\.receive_window_size\)"]])
+        if not good:
+            return False, "handle_datagram moves end_id for a packet not tested to lie inside the window"
+    callers = sorted(ob.path.split("::")[-1] for ob in R.all_bodies() if call_sites(ob, "PacketReceiver::advance_window"))
+    if callers != ["receive", "resynchronize"]:
+        return False, "advance_window is called from %s" % callers
+    rs = R.body("PacketReceiver::resynchronize")
+    for loc, lab in call_sites(rs, "PacketReceiver::advance_window"):
+        good, _ = dnf_holds(cx.fa(rs).at(loc), [[r"le\(packet_id::sub\(arg2,arg1\.base_id\),arg1\.receive_window_size\)"]])
+        if not good:
+            return False, "resynchronize advances the window without the sender_delta <= window test"
+    return True, ""
+
+
+def _lk_flag_data_pair(cx):
+    """data is Some only while the slot's data flag is set: the only store of Some data (handle_datagram) sets the
+    flag on every path, and every clearing of a data flag follows a take() of the slot's data"""
+    R = cx.R
+    hd = R.body("PacketReceiver::handle_datagram")
+    st = [l for l, n, ps in hd.field_writes(r"arg1\.data_entries\[.*\](\.data)?")]
+    fl = [l for l, n, ps in hd.field_writes(r"arg1\.data_flags\[.*\]")]
+    if not st or not fl:
+        return False, "anchor: data store / flag set not found in handle_datagram"
+    for l in st:
+        if hd.reach_exit_avoiding(l, fl) is not None:
+            return False, "handle_datagram stores packet data without setting the slot's data flag"
+    for ob in R.all_bodies():
+        if "::PacketReceiver::" not in ob.path or ob.path == hd.path:
+            continue
+        takes = [l for l, t in ob.calls("Option::take") if re.search(r"arg1\.data_entries\[", show(ob.call_expr(t)))]
+        for l, n, ps in ob.field_writes(r"arg1\.data_flags\[.*\]"):
+            if not takes or ob.reach_from_entry_avoiding(l, takes) is not None and not any(ob.dominates_loc(tl, l) if hasattr(ob, "dominates_loc") else False for tl in takes):
+                # fall back to the path formulation: the write is not reachable from entry without passing a take
+                if ob.reach_from_entry_avoiding(l, takes) is not None:
+                    return False, "%s clears a data flag without taking the slot's data first" % ob.path.split("::")[-1]
+    return True, ""
+
+
+STATE_BELIEFS = [
+    # (function, belief, struct, fields, allowed writers, reason, linked check)
+    (PR + "receive", r"le\(packet_id::sub\(arg1\.end_id,arg1\.base_id\),arg1\.receive_window_size\)", "PacketReceiver", ("end_id", "base_id", "receive_window_size"),
+     ("new", "handle_datagram", "advance_window"), "window span invariant", _lk_window_span),
+    (PR + "advance_window", r"le\(packet_id::sub\(arg2,arg1\.base_id\),arg1\.receive_window_size\)", "PacketReceiver", ("end_id", "base_id", "receive_window_size"),
+     ("new", "handle_datagram", "advance_window"), "callers pass an id between base and end (receive) or test sender_delta (resynchronize)", _lk_window_span),
+    (PR + "(handle_datagram|receive)", r"le\(packet_id::sub\(Option::unwrap_or\(arg1\.channels\[.*\]\.base_id,arg1\.base_id\),arg1\.base_id\),arg1\.receive_window_size\)", "PacketReceiver", ("channels", "channel_base_markers", "base_id"),
+     ("new", "handle_datagram", "set_channel_base_id", "try_unset_channel_base_id", "advance_window", "receive"),
+     "a channel base is set to seq+1 of a delivered packet inside the window and unset (marker) when the window base reaches it", _lk_window_span),
+    (PR + "set_channel_base_id", r"!is\(arg1\.channel_base_markers\[.*\],Some\)", "PacketReceiver", ("channel_base_markers",),
+     ("new", "set_channel_base_id", "try_unset_channel_base_id"),
+     "one marker per channel, removed before the new one is placed; two channels cannot have delivered up to the same id", None),
+    (PR + "receive", r"!is\(arg1\.data_entries\[.*\]\.data,Some\)", "PacketReceiver", ("data_entries", "data_flags"),
+     ("new", "handle_datagram", "receive"), "reached only with the slot's data flag clear (runtime test); flag clear implies data taken", _lk_flag_data_pair),
+    (RB + "(put|advance)", r"(ne\(arg1\.base_id,arg1\.frames\[0\]\)|le\(arg1\.frame_count,2\)|ne\(u32::wrapping_sub\(arg1\.frames\[[01]\],arg1\.base_id\),.*\))", "ReorderBuffer", ("base_id", "frames", "frame_count"),
+     ("new", "put", "advance"), "two-slot buffer: put() is entered only under can_put (id ahead of base, not stored), slots hold distinct ids ahead of base", None),
+    (r"half_connection::packet_receiver::assembly_window::fragment_buffer::FragmentBuffer::finalize", r"le\(arg1\.total_size,\[T\]::len\(arg1\.buffer\)\)", "FragmentBuffer", ("total_size", "buffer"),
+     ("new", "write"), "each fragment adds its length once (flag test) and fragment i occupies [i*M, i*M+len) of a buffer of n*M bytes", None),
+]
+
+
+def _field_writers(R, struct, fields):
+    out = {}
+    frx = r"arg1\.(%s)(\W.*)?" % "|".join(fields)
+    mut_rx = re.compile(r"(push|pop|insert|remove|clear|truncate|take|fill|swap|drain|iter_mut|index_mut|as_mut|get_mut|front_mut|back_mut|replace|resize)")
+    for b in R.all_bodies():
+        if "::%s::" % struct not in b.path:
+            continue
+        fn = b.path.split("::")[-1]
+        for loc, node, ps in b.field_writes(frx):
+            out.setdefault(fn, set()).add(re.match(r"arg1\.(\w+)", ps).group(1))
+        for loc, t in b.calls():
+            sc = show(b.call_expr(t))
+            m = re.match(r"([\w:<>\[\] ,']+)\(arg1\.(\w+)", sc)
+            if m and m.group(2) in fields and mut_rx.search(m.group(1).split("::")[-1]):
+                out.setdefault(fn, set()).add(m.group(2))
+    return out
+
+
+def check_state_beliefs(cx, iid="C03.T"):
+    from mirlib import lit_neg
+    D, R = cx.D, cx.R
+    net_roots = [D.fn("client::Client::handle_frame")["path"], D.fn("server::Server::handle_frame")["path"]]
+    net_reach = D.reachable_from(net_roots)
+    RECV_SIDE = ("::packet_receiver::", "::reorder_buffer::", "::frame_ack_queue::", "::assembly_window::")
+    with cx.instance(iid, "contradiction rule (stated belief about state)", "a debug_assert! about the receiving side's own state, in code reachable from handle_frame, is dominated by a runtime test "
+                     "or is a reviewed invariant whose fields are written only by the reviewed functions", floor=8, exact_floor=False) as inst:
+        lk_cache = {}
+        for b in D.all_bodies():
+            if b.path not in net_reach or not any(m in b.path for m in RECV_SIDE):
+                continue
+            for loc, t in b.calls("panicking::panic"):
+                x = t["sp"].get("x", [])
+                if not any("debug_assert" in y for y in x):
+                    continue
+                fa = cx.fa(b)
+                belief, pp = None, None
+                for p, lab in b.pred[loc.bb]:
+                    lits = fa.edge_lits.get((p, loc.bb, lab[1])) if lab[0] == "sw" else None
+                    if lits:
+                        belief, pp = [lit_neg(l) for l in lits], p
+                if not belief:
+                    continue
+                for bl in belief:
+                    if not re.search(r"\barg1\.", bl):
+                        continue  # a belief about a parameter only: C03.B
+                    rec = inst.site(b, loc, "debug_assert " + norm_vars(bl)[:110])
+                    dom, _ = dnf_holds(fa.at(Loc(pp, len(b.stmts(pp)))), [[re.escape(bl)]])
+                    if dom:
+                        rec["detail"] = {"discharged_by": "dominating runtime test"}
+                        continue
+                    hit = None
+                    for ent in STATE_BELIEFS + [(e[0], e[1], None, (), (), e[3], None) for e in BELIEF_TABLE]:
+                        if re.fullmatch(ent[0], b.path) and re.fullmatch(ent[1], bl):
+                            hit = ent
+                            break
+                    if hit is None:
+                        inst.violation(b.path, "debug_assert(%s)" % norm_vars(bl)[:90],
+                                       "the code asserts `%s` about its own state only in debug builds; the state is filled from received frames, no runtime test dominates the assertion and it is not a reviewed invariant: "
+                                       "a peer that can falsify it panics a debug build and leaves a release build in a state its author excluded" % norm_vars(bl)[:200], at=b.span_at(loc))
+                        continue
+                    _, _, struct, fields, allowed, reason, lk = hit
+                    rec["detail"] = {"discharged_by": "reviewed invariant: " + reason}
+                    if struct:
+                        ws = _field_writers(R, struct, fields)
+                        extra = sorted(f for f in ws if f not in allowed)
+                        if extra:
+                            inst.violation(b.path, "writers of %s.{%s}" % (struct, ",".join(fields)),
+                                           "the reviewed argument for `%s` covers the writers %s; %s now write(s) these fields too" % (norm_vars(bl)[:80], list(allowed), extra), at=b.span_at(loc))
+                    if lk:
+                        if lk not in lk_cache:
+                            lk_cache[lk] = lk(cx)
+                        ok, why = lk_cache[lk]
+                        if not ok:
+                            inst.violation(b.path, "debug_assert(%s)" % norm_vars(bl)[:90], "the reviewed invariant's structural core no longer holds: " + why, at=b.span_at(loc))
+
+
 # =================================================================================================
 # C03.V validity guards
 
@@ -1435,6 +1588,20 @@ def _lk_weights(cx, inst, b, n):
     tr = [int(re.search(r",(\d+)\)$", show(pn.call_expr(t))).group(1)) for l, t in pn.calls("VecDeque::truncate")]
     if not tr or max(tr) - 1 > n:
         return None
+    # the bound holds at every return only if each growth of the queue is followed by the truncation (or starts from empty)
+    for ob in R.all_bodies():
+        if "loss_rate::LossIntervalQueue" not in ob.path:
+            continue
+        for l, t in ob.calls("re:VecDeque::push_(front|back)$"):
+            if not show(ob.call_expr(t)).startswith(R.short(t["fn"]) + "(arg1.entries,"):
+                continue
+            empty, _ = dnf_holds(cx.fa(ob).at(l), [[r"is\(VecDeque::front(_mut)?\(arg1\.entries\),None\)"], [r"eq\(0,VecDeque::len\(arg1\.entries\)\)"]])
+            if empty:
+                continue
+            trl = [tl for tl, tt in ob.calls("VecDeque::truncate") if re.fullmatch(r"VecDeque::truncate\(arg1\.entries,\d+\)", show(ob.call_expr(tt)))]
+            if not trl or ob.reach_exit_avoiding(l, trl) is not None:
+                inst.site(ob, l, "loss interval pushed without a later truncate")
+                return None
     return "reviewed: loss intervals truncated to %d, WEIGHTS has %d entries" % (max(tr), n)
 
 
@@ -1494,6 +1661,7 @@ def run(cx):
     check_loops(cx)
     check_panics(cx)
     check_beliefs(cx)
+    check_state_beliefs(cx)
     check_validators(cx)
     check_parser(cx)
     check_index_inventory(cx)
@@ -1504,9 +1672,23 @@ def run(cx):
     inst_id_arith(cx, "C03.G")
     from props.C04 import inst_sizes
     inst_sizes(cx, "C03.S")
+    # the reassembly buffer is sized from the fragment count: a count computed in the header's narrow type wraps to 0
+    # and the first fragment copy indexes an empty buffer
+    from props.C06 import inst_sibling_accounting
+    inst_sibling_accounting(cx, "C03.A")
 
 
 SELFTEST = [
+    {"name": "F14 reintroduced: the window loop passes an entry whose data flag is set",
+     "edits": [{"file": "src/half_connection/packet_receiver/mod.rs",
+                "old": "                        if self.data_flags[flags_index] & flag_bit != 0 {\n",
+                "new": "                        debug_assert!(self.data_flags[flags_index] & flag_bit == 0);\n                        if false {\n"}],
+     "expect": ["C03.T"]},
+    {"name": "a second writer of end_id outside the reviewed functions",
+     "edits": [{"file": "src/half_connection/packet_receiver/mod.rs",
+                "old": "        let sender_delta = packet_id::sub(sender_next_id, base_id);\n",
+                "new": "        let sender_delta = packet_id::sub(sender_next_id, base_id);\n        self.end_id = sender_next_id;\n"}],
+     "expect": ["C03.T"]},
     {"name": "re-sliced Frame::read (benign g8-3) with the length guard weakened to the CRC size",
      "patch": __import__("os").path.join(__import__("os").path.dirname(__import__("os").path.dirname(__import__("os").path.abspath(__file__))), "benign", "g8-3", "patch.diff"),
      "edits": [{"file": "src/frame/serial/mod.rs", "old": "if frame_len < FRAME_OVERHEAD {", "new": "if frame_len < FRAME_CRC_SIZE {"}],
